@@ -256,6 +256,94 @@ impl<'a> Command<'a> {
     }
 }
 
+/// Verification hooks (cargo feature `verif`): canonical rendering of parsed commands, and
+/// entry points to the otherwise private line parser and command reader. Add-only.
+#[cfg(feature = "verif")]
+pub mod verif_hooks {
+    use super::*;
+    use std::cell::RefCell;
+
+    fn hex(text: &str) -> String {
+        if text.is_empty() {
+            return "-".to_string();
+        }
+        text.bytes().map(|byte| format!("{:02x}", byte)).collect()
+    }
+
+    fn render_memory_location(location: &MemoryLocation) -> String {
+        match location {
+            MemoryLocation::PCOffset(offset) => format!("pc:{}", offset),
+            MemoryLocation::Address(address) => format!("addr:{:04x}", address),
+            MemoryLocation::Label(label) => format!("label:{}:{}", hex(label.name), label.offset),
+        }
+    }
+
+    fn render_location(location: &Location) -> String {
+        match location {
+            Location::Register(register) => format!("r{}", *register as u8),
+            Location::Memory(location) => render_memory_location(location),
+        }
+    }
+
+    /// One command with all of its argument values, in a fixed textual form.
+    pub fn render(command: &Command) -> String {
+        match command {
+            Command::Help => "help".to_string(),
+            Command::StepOver => "step".to_string(),
+            Command::StepInto { count } => format!("stepinto {:04x}", count),
+            Command::StepOut => "stepout".to_string(),
+            Command::Continue => "continue".to_string(),
+            Command::Registers => "registers".to_string(),
+            Command::Print { location } => format!("print {}", render_location(location)),
+            Command::Move { location, value } => {
+                format!("move {} {:04x}", render_location(location), value)
+            }
+            Command::Goto { location } => format!("goto {}", render_memory_location(location)),
+            Command::Assembly { location } => {
+                format!("assembly {}", render_memory_location(location))
+            }
+            Command::Eval { instruction } => format!("eval {}", hex(instruction)),
+            Command::Echo { string } => format!("echo {}", hex(string)),
+            Command::Reset => "reset".to_string(),
+            Command::Quit => "quit".to_string(),
+            Command::Exit => "exit".to_string(),
+            Command::BreakList => "breaklist".to_string(),
+            Command::BreakAdd { location } => {
+                format!("breakadd {}", render_memory_location(location))
+            }
+            Command::BreakRemove { location } => {
+                format!("breakremove {}", render_memory_location(location))
+            }
+        }
+    }
+
+    /// `Command::try_from` on one line: `ok <command>` or `err`.
+    ///
+    /// Panics and `process::exit` (through `verif::exit_hook`) propagate to the caller.
+    pub fn verif_parse_line(line: &str) -> String {
+        match Command::try_from(line) {
+            Ok(command) => format!("ok {}", render(&command)),
+            Err(_) => "err".to_string(),
+        }
+    }
+
+    /// Build a [`CommandReader`] (argument first, then stdin) and loop `Command::read_from`
+    /// until end of input. Every reported error appends `err` to `events`, every command its
+    /// rendering; events are appended as they happen, so that they survive an unwind.
+    pub fn verif_read_all(argument: Option<String>, events: &RefCell<Vec<String>>) {
+        let mut reader = CommandReader::from(argument);
+        loop {
+            let command = Command::read_from(&mut reader, |_error| {
+                events.borrow_mut().push("err".to_string());
+            });
+            match command {
+                Some(command) => events.borrow_mut().push(render(&command)),
+                None => return,
+            }
+        }
+    }
+}
+
 #[cfg(test)]
 mod tests {
     use super::*;
